@@ -27,7 +27,14 @@ def evaluate(seed, props, tier):
     os.rmdir(wt)
     out = {}
     try:
-        subprocess.run(['git', '-C', '/repo', 'worktree', 'add', '--detach', wt, 'HEAD', '-q'], check=True, capture_output=True)
+        for attempt in range(5):       # concurrent `worktree add`s occasionally collide on the repository lock
+            r0 = subprocess.run(['git', '-C', '/repo', 'worktree', 'add', '--detach', wt, 'HEAD', '-q'], capture_output=True, text=True)
+            if r0.returncode == 0:
+                break
+            import time
+            time.sleep(1 + attempt)
+        else:
+            return seed, {'error': 'worktree add failed: ' + r0.stderr[:200]}
         r = subprocess.run(['git', '-C', wt, 'apply', os.path.join(d, 'patch.diff')], capture_output=True, text=True)
         if r.returncode != 0:
             return seed, {'error': 'patch does not apply: ' + r.stderr[:200]}
